@@ -118,13 +118,13 @@ def gen_case(rng, cid, tables, cfgs, slow_ok, per_route):
                     targets.append(with_auth(step(port, alt, method=r["method"], query=q, host=base["host"]), "good"))
             # ... and another method on the same path (NoRoute chain)
             if rng.random() < (0.15 if port == "admin" else 0.5):
-                m2 = rng.choice([m for m in ("GET", "POST", "PUT", "DELETE", "PATCH") if m != r["method"] and not any(x["path"] == r["path"] and x["method"] == m for x in routes)])
+                m2 = rng.choice([m for m in ("GET", "POST", "PUT", "DELETE", "PATCH", "OPTIONS", "PURGE") if m != r["method"] and not any(x["path"] == r["path"] and x["method"] == m for x in routes)])
                 targets.append(with_auth(step(port, p, method=m2, host=base["host"]), rng.choice(["none", "bad", "good"])))
         # NoRoute: unknown paths, the proxied application's own paths
         for p in ("/", "/unknown/path", "/_piko", "/piko/v1/upstream", "/status", "/healthz"):
             for k in ("none", "bad", "good"):
                 if rng.random() < (0.25 if port == "admin" else 0.6) and (c is not None or k == "none"):
-                    s = step(port, p, method=rng.choice(["GET", "GET", "POST"]))
+                    s = step(port, p, method=rng.choice(["GET", "GET", "POST", "OPTIONS", "DELETE"]))   # no method is exempt (a CORS preflight carries no credentials: it is refused like anything else)
                     if port == "proxy":
                         s["host"] = rng.choice(["e.example.com", "app.example.com:80", "", "localhost"])
                         if rng.random() < 0.3:
